@@ -284,8 +284,15 @@ func (c *Ctx) Finish(statsPath string) {
 	if statsPath == "" {
 		return
 	}
-	b, _ := json.MarshalIndent(c.St, "", " ")
-	_ = os.WriteFile(statsPath, b, 0o644)
+	b, err := json.MarshalIndent(c.St, "", " ")
+	if err == nil {
+		err = os.WriteFile(statsPath, b, 0o644)
+	}
+	if err != nil {
+		// the monitors' findings travel in this file: losing it silently would turn a violation into OK
+		fmt.Fprintf(os.Stderr, "fatal error: verif harness: cannot write the stats file %s: %v\n", statsPath, err)
+		os.Exit(4)
+	}
 }
 
 // Stream is one property's generator and executor.
